@@ -82,6 +82,7 @@ class Program:
         self.clauses = []       # T(clause heads=[atoms], body=[literals])  (disjunctions expanded)
         self.subsumptions = []  # T(subsume dominated=atom, dominating=atom, body=[...])
         self.functors = {}      # name -> (arg types, ret type)
+        self.lattices = {}      # lattice type name -> {Bottom/Lub/Glb/Top: term}
 
     @staticmethod
     def parse(text):
@@ -159,10 +160,15 @@ class _Parser:
             name = self.eat("id")[1]
             self.eat("op", "(")
             attrs, types = [], []
+            lattice_cols = []
             while not self.peek("op", ")"):
                 a = self.eat("id")[1]
                 self.eat("op", ":")
                 tn = self.eat("id")[1]
+                if self.peek("op", "<") and self.t[self.i + 1] == ("op", ">"):
+                    self.next()
+                    self.next()
+                    lattice_cols.append(len(attrs))
                 attrs.append(a)
                 types.append(tn)
                 if not self.try_op(","):
@@ -198,6 +204,7 @@ class _Parser:
                         break
             p.rels[name] = RelInfo(name, attrs, [p.base_type(t) for t in types], quals, choice)
             p.rels[name].type_names = types
+            p.rels[name].lattice_cols = lattice_cols
             if "input" in quals:
                 p.inputs.append(name)
             if "output" in quals:
@@ -277,7 +284,21 @@ class _Parser:
             if self.peek("str"):
                 self.next()
         elif d == ".lattice":
-            raise RefUnsupported("lattice declarations have no least-model reference")
+            # .lattice T<> { Bottom -> c, Lub -> @f(_,_), Glb -> @g(_,_) [, Top -> c] }
+            name = self.eat("id")[1]
+            self.eat("op", "<")
+            self.eat("op", ">")
+            self.eat("op", "{")
+            spec = {}
+            while not self.peek("op", "}"):
+                key = self.eat("id")[1]
+                self.eat("op", "-")
+                self.eat("op", ">")
+                t = self.term()
+                spec[key] = t
+                self.try_op(",")
+            self.eat("op", "}")
+            p.lattices[name] = spec
         else:
             raise RefUnsupported("directive " + d + " is outside the reference fragment")
 
